@@ -696,6 +696,22 @@ def hs_args(t):
     return a, acts
 
 
+def tp_endpoint_oracle(case, out, i):
+    """C10 ("dial successes and failures re-score exactly the address used"): the endpoint address the transport reports
+    for an established connection — the address the manager credits — is the address that was dialed, for every host kind."""
+    t = case[i].split()
+    o = out[i] if i < len(out) else ""
+    if not t or t[0] != "tp" or not o.startswith("D=") or " ep=" not in o:
+        return []
+    a = kvs(t[1:])
+    ep = o.split(" ep=", 1)[1].split()[0]
+    if ep == a.get("host"):
+        return []
+    return [{"kind": "endpoint-address", "step": i, "op": case[i], "out": o,
+             "msg": f"TcpTransport::{a.get('via')} of /{a.get('host')}/localhost/tcp/<port> succeeded, the connection's endpoint address is "
+                    f"/{ep}/...: the manager credits an address that was not the one dialed (and leaves the dialed one untested)"}]
+
+
 def oracle(case, out):
     bad = []
 
@@ -786,8 +802,10 @@ def oracle(case, out):
                 a = kvs(t[1:])
                 if not o.startswith("D=") or o[2:] in TP_ENV:
                     continue            # the sandbox could not resolve / reach / schedule: a distinct observation, no verdict
-                what, _, rest = o[2:].partition(":")
+                first, _, epart = o[2:].partition(" ")
+                what, _, rest = first.partition(":")
                 connected = what in ("opened", "established")
+                bad.extend(tp_endpoint_oracle(case, out, i))
                 where = f"TcpTransport::{a['via']} with a /{a['host']}/ address"
                 if a["exp"] not in ("none", a["l"]):
                     if connected:
